@@ -333,6 +333,21 @@ func classifyFieldUse(fn *ssa.Function, fa *ssa.FieldAddr) []fieldAccess {
 							if st, ok := u2.(*ssa.Store); ok && st.Addr == ssa.Value(m) {
 								out = append(out, fieldAccess{fn: fn, ins: st, write: true, how: "elemstore", pos: st.Pos()})
 							}
+							// element that is itself a map: updates of it mutate the container
+							if ld, ok := u2.(*ssa.UnOp); ok && ld.Op == token.MUL {
+								for _, u3 := range *ld.Referrers() {
+									switch mm := u3.(type) {
+									case *ssa.MapUpdate:
+										if mm.Map == ssa.Value(ld) {
+											out = append(out, fieldAccess{fn: fn, ins: mm, write: true, how: "elem-mapset", pos: mm.Pos()})
+										}
+									case *ssa.Call:
+										if bi, ok := mm.Common().Value.(*ssa.Builtin); ok && bi.Name() == "delete" && mm.Common().Args[0] == ssa.Value(ld) {
+											out = append(out, fieldAccess{fn: fn, ins: mm, write: true, how: "elem-delete", pos: mm.Pos()})
+										}
+									}
+								}
+							}
 						}
 					}
 				}
@@ -359,6 +374,10 @@ func classifyFieldUse(fn *ssa.Function, fa *ssa.FieldAddr) []fieldAccess {
 			}
 			w := true
 			how := "escape:" + name
+			if f := cc.StaticCallee(); f != nil && isPure(f) {
+				w = false
+				how = "read-via:" + name
+			}
 			if strings.HasPrefix(name, "sync/atomic.Load") || strings.HasPrefix(name, "(*sync/atomic.") && strings.HasSuffix(name, ").Load") {
 				w = false
 				how = "atomic-read"
